@@ -102,22 +102,27 @@ class UintSetExpr(_UintSet):
         def is_store(x):
             return isinstance(x, SObj) and x.cls is pt.ScratchStore and x.fields["var"] is var and x.fields["value"] is e
         if size == 64:
-            ctx.oblige("width-64-stores-the-expression-unchecked", z3.BoolVal(bool(is_store(res))))
+            if not is_store(res):
+                raise Unsupported("uint_set(64, <expression>) returns a form this contract does not recognise")
+            ctx.oblige("width-64-stores-the-expression", z3.BoolVal(True))
             return
         ok = isinstance(res, SObj) and res.cls is pt.Seq and len(res.fields["args"]) == 2 and is_store(res.fields["args"][0])
-        ctx.oblige("narrow-width-result-is-Seq(store, ...)", z3.BoolVal(bool(ok)))
         if not ok:
-            return
+            if is_store(res):
+                ctx.oblige("narrow-width-store-is-followed-by-a-run-time-range-check", z3.BoolVal(False))
+                return
+            raise Unsupported("uint_set(<64, <expression>) returns a form this contract does not recognise")
         a = res.fields["args"][1]
         shape = isinstance(a, SObj) and a.cls is pt.Assert and len(a.fields["cond"]) == 1
         c = a.fields["cond"][0] if shape else None
-        shape = shape and isinstance(c, SObj) and c.cls is pt.BinaryExpr and c.fields["op"] == "<" \
+        shape = shape and isinstance(c, SObj) and c.cls is pt.BinaryExpr and c.fields["op"] in ("<", "<=") \
             and isinstance(c.fields["l"], SObj) and c.fields["l"].cls is pt.ScratchLoad and c.fields["l"].fields["var"] is var \
             and isinstance(c.fields["r"], SObj) and c.fields["r"].cls is pt.Int
-        ctx.oblige("followed-by-Assert(load-of-the-same-variable < Int(bound))", z3.BoolVal(bool(shape)))
-        if shape:
-            b = c.fields["r"].fields["value"]
-            ctx.oblige("the-bound-is-2^width", (b == 2 ** size) if is_z3(b) else z3.BoolVal(b == 2 ** size))
+        if not shape:
+            raise Unsupported("the run-time range check of uint_set has a form this contract does not recognise")
+        b = c.fields["r"].fields["value"]
+        bound = 2 ** size if c.fields["op"] == "<" else 2 ** size - 1
+        ctx.oblige("run-time-check-admits-exactly-the-values-below-2^width", (b == bound) if is_z3(b) else z3.BoolVal(b == bound))
 
 
 class _Codec(Contract):
@@ -197,7 +202,8 @@ class UintEncode(_Codec):
             good = nbytes == 1 and self.is_ctor(base, "Bytes", 1) and base.fields["args"][0] == b"\x00" and self.const(idx) == 0 and v is e
             ctx.oblige("setbyte-form-only-for-one-byte-into-a-single-zero-byte-at-index-0", z3.BoolVal(bool(good)))
             return
-        ctx.oblige("result-is-one-of-the-three-big-endian-forms", z3.BoolVal(False))
+        # another way of writing the encoding: not decided here (undecided -> the native witness search on the spec AVM decides)
+        raise Unsupported("uint_encode returns an expression form this contract does not recognise")
 
 
 class UintDecode(_Codec):
@@ -295,15 +301,17 @@ class BoolDecode(_BoolCodec):
             return
         res = outcome[1]
         ok = self.is_store(res, var) and self.is_ctor(res.fields["value"], "GetBit", 2)
-        ctx.oblige("stores-a-getbit-into-the-own-variable", z3.BoolVal(bool(ok)))
         if not ok:
-            return
+            raise Unsupported("Bool.decode returns a form this contract does not recognise")
         src, bit = res.fields["value"].fields["args"]
         ctx.oblige("reads-the-encoded-string", self.same(src, enc))
         mul = self.is_ctor(bit, "Mul", 2)
-        ctx.oblige("bit-index-is-a-product", z3.BoolVal(bool(mul)))
+        if not mul:
+            raise Unsupported("the bit index of Bool.decode has a form this contract does not recognise")
         if mul:
             a, b = bit.fields["args"]
+            if self.const(b) is None and self.const(a) is not None and start is not None:
+                a, b = b, a      # 8 * start
             cb = self.const(b)
             ctx.oblige("byte-index-times-8", z3.BoolVal(False) if cb is None else ((cb == 8) if is_z3(cb) else z3.BoolVal(cb == 8)))
             if start is None:
@@ -328,7 +336,9 @@ class BoolEncode(_BoolCodec):
             ctx.oblige("never-raises", z3.BoolVal(False))
             return
         res = outcome[1]
-        ok = self.is_ctor(res, "SetBit", 3)
+        if not self.is_ctor(res, "SetBit", 3):
+            raise Unsupported("Bool.encode returns a form this contract does not recognise")
+        ok = True
         if ok:
             base, idx, v = res.fields["args"]
             ok = self.is_ctor(base, "Bytes", 1) and base.fields["args"][0] == b"\x00" and self.const(idx) == 0 \
@@ -470,9 +480,12 @@ class BoolSetExpr(_BoolCodec):
             return
         res = outcome[1]
         ok = self.is_store(res, var) and self.is_ctor(res.fields["value"], "Not", 1) and self.is_ctor(res.fields["value"].fields["args"][0], "Not", 1)
-        ctx.oblige("stores-Not(Not(.))-into-the-own-variable", z3.BoolVal(bool(ok)))
-        if ok:
-            ctx.oblige("of-the-given-expression", self.same(res.fields["value"].fields["args"][0].fields["args"][0], e))
+        if not ok:
+            if self.is_store(res, var) and res.fields["value"] is e:
+                ctx.oblige("an-expression-value-is-normalised-to-0-or-1-before-it-is-stored", z3.BoolVal(False))
+                return
+            raise Unsupported("Bool.set(<expression>) returns a form this contract does not recognise")
+        ctx.oblige("stores-Not(Not(.))-of-the-given-expression", self.same(res.fields["value"].fields["args"][0].fields["args"][0], e))
 
 
 # ---- linking contracts: the Uint methods hand their own width and their own variable to the helpers above ---------------------------
